@@ -1,5 +1,6 @@
 // C11 / C12 / C15: key_encoder / key_decoder kernels, all inputs symbolic.
 #include "verif.hpp"
+#include <string_view>
 #include "art_common.hpp"
 #include "art_internal.hpp"
 #include <cstring>
@@ -102,7 +103,7 @@ HARNESS(h_text_pair) {
   }
   key_encoder e1, e2;
   e1.encode_text(std::span<const std::byte>(reinterpret_cast<const std::byte*>(t1), n1));
-  e2.encode_text(std::span<const std::byte>(reinterpret_cast<const std::byte*>(t2), n2));
+  e2.encode_text(std::string_view(reinterpret_cast<const char*>(t2), n2));      // second text through the string_view overload: both must agree
   key_view k1 = e1.get_key_view(), k2 = e2.get_key_view();
   PROP(k1.size() == m1 + 3 && k2.size() == m2 + 3, "C15: text: emits the normalised bytes plus a 3-byte terminator");
   for (std::size_t i = 0; i < TEXTLEN; i++)
@@ -175,6 +176,36 @@ HARNESS(h_tuple_fixed) {
   PROP(i == xi && u == xu, "C12: tuple(i32,f64,u16): integer components decode in order");
   if (xd == xd) PROP(bd == xb, "C12: tuple(i32,f64,u16): f64 in the middle decodes bit for bit");
   observe_key(k1); OBSERVE(c);
+  WITNESS();
+}
+
+// schema C: every fixed-size component type, each one followed by another component, in two orders: the decoder must advance by
+// exactly the component's size whatever the type (C12 "decoding the components in the order they were encoded")
+HARNESS(h_decode_all) {
+  const std::int8_t a = static_cast<std::int8_t>(in_u8()); const std::uint8_t b = in_u8();
+  const std::int16_t c = static_cast<std::int16_t>(in_u16()); const std::uint16_t d = in_u16();
+  const std::int32_t e = static_cast<std::int32_t>(in_u32()); const std::uint32_t f = in_u32();
+  const std::int64_t g = static_cast<std::int64_t>(in_u64()); const std::uint64_t h = in_u64();
+  const std::uint32_t fb = in_u32(); const std::uint64_t db = in_u64();
+  float x; double y; std::memcpy(&x, &fb, 4); std::memcpy(&y, &db, 8);
+  ASSUME(x == x && y == y);          // NaNs decode to the canonical NaN: covered by the per-type queries
+  key_encoder enc;
+  enc.encode(a).encode(b).encode(c).encode(d).encode(e).encode(f).encode(g).encode(h).encode(x).encode(y)
+     .encode(y).encode(x).encode(h).encode(g).encode(f).encode(e).encode(d).encode(c).encode(b).encode(a).encode(a).encode(b);
+  key_view k = enc.get_key_view();
+  PROP(k.size() == 2 * (1 + 1 + 2 + 2 + 4 + 4 + 8 + 8 + 4 + 8) + 2, "C12: all types: size is the sum of the component sizes");
+  std::int8_t a1, a2, a3; std::uint8_t b1, b2, b3; std::int16_t c1, c2; std::uint16_t d1, d2; std::int32_t e1, e2; std::uint32_t f1, f2;
+  std::int64_t g1, g2; std::uint64_t h1, h2; float x1, x2; double y1, y2;
+  key_decoder dec{k};
+  dec.decode(a1).decode(b1).decode(c1).decode(d1).decode(e1).decode(f1).decode(g1).decode(h1).decode(x1).decode(y1)
+     .decode(y2).decode(x2).decode(h2).decode(g2).decode(f2).decode(e2).decode(d2).decode(c2).decode(b2).decode(a2).decode(a3).decode(b3);
+  PROP(a1 == a && a2 == a && a3 == a && b1 == b && b2 == b && b3 == b, "C12: all types: 8-bit components decode in order");
+  PROP(c1 == c && c2 == c && d1 == d && d2 == d, "C12: all types: 16-bit components decode in order");
+  PROP(e1 == e && e2 == e && f1 == f && f2 == f, "C12: all types: 32-bit components decode in order");
+  PROP(g1 == g && g2 == g && h1 == h && h2 == h, "C12: all types: 64-bit components decode in order");
+  std::uint32_t xb1, xb2; std::uint64_t yb1, yb2; std::memcpy(&xb1, &x1, 4); std::memcpy(&xb2, &x2, 4); std::memcpy(&yb1, &y1, 8); std::memcpy(&yb2, &y2, 8);
+  PROP(xb1 == fb && xb2 == fb && yb1 == db && yb2 == db, "C12: all types: floating-point components decode bit for bit in order");
+  OBSERVE(k.size()); OBSERVE(static_cast<std::uint8_t>(a1)); OBSERVE(h2);
   WITNESS();
 }
 
